@@ -118,10 +118,12 @@ impl LunarYear {
 
   pub fn get_months(&self) -> Vec<LunarMonth> {
     let mut l: Vec<LunarMonth> = Vec::new();
-    let mut m: LunarMonth = LunarMonth::from_ym(self.year, 1);
-    while m.get_year() == self.year {
-      l.push(m);
-      m = m.next(1);
+    let leap_month: isize = self.get_leap_month() as isize;
+    for i in 1..13 {
+      l.push(LunarMonth::from_ym(self.year, i));
+      if i == leap_month {
+        l.push(LunarMonth::from_ym(self.year, -i));
+      }
     }
     l
   }
